@@ -36,7 +36,22 @@ def families(quick):
         'boolinflate': dict(Ops='{"Inflate","BoolToInt","IntToFloat","Add","LogicalNot","Sum"}', LeafSet='{6, 13, 14}' if quick else '{6, 13, 14, 18}', MaxOps=d, MaxNodes=d + 3, MaxLeaves=3),
         'suminflate': dict(Ops='{"Sum","Inflate","Multiply","Add","InsertAxis"}', LeafSet='{1, 13, 14}', MaxOps=d, MaxNodes=d + 3, MaxLeaves=3),
         'core': dict(Ops='CoreOps', LeafSet='{1, 2, 13}' if quick else '{1, 2, 9, 10, 13, 14, 22}', MaxOps=2, MaxNodes=4 if quick else 5, MaxLeaves=2 if quick else 3),
+        # ---- complex dtype: the _real / _imag / _conjugate swap rules, casts, complex arithmetic and structure
+        'cxparts': dict(Ops='{"FloatToComplex","Real","Imag","Conjugate","Multiply","Add","Negative"}', LeafSet='{1, 41, 44}' if quick else '{1, 7, 41, 44, 50}', MaxOps=d, MaxNodes=d + 3, MaxLeaves=3),
+        'cxpow': dict(Ops='{"Power","Conjugate","Multiply","Reciprocal","Absolute","Real"}', LeafSet='{42, 45, 47, 48}' if quick else '{42, 45, 46, 47, 48, 52}', MaxOps=d, MaxNodes=d + 3, MaxLeaves=3),
+        'cxstruct': dict(Ops='{"Inflate","Take","Diagonalize","TakeDiag","Sum","Product","Conjugate","Imag","InsertAxis","Transpose"}', LeafSet='{41, 13, 14}' if quick else '{41, 43, 13, 14}', MaxOps=d, MaxNodes=d + 3, MaxLeaves=3),
+        'cxlin': dict(Ops='{"Determinant","Inverse","Conjugate","Multiply","Real","FloatToComplex","LoopSum","Take"}', LeafSet='{43, 49, 22}' if quick else '{2, 43, 49, 22}', MaxOps=d, MaxNodes=d + 3, MaxLeaves=3),
+        # ---- Einsum, polynomials, search / unique, loop dependent axis lengths
+        'einsum': dict(Ops='{"Einsum","Transpose","InsertAxis","Multiply","Sum"}', LeafSet='{1, 2, 13}' if quick else '{1, 2, 12, 13, 17}', MaxOps=d, MaxNodes=d + 3, MaxLeaves=3),
+        'poly': dict(Ops='{"Polyval","PolyMul","PolyGrad","Legendre","InsertAxis","Take","Multiply"}', LeafSet='{1, 26, 30, 53}' if quick else '{1, 2, 13, 26, 30, 53, 57}', MaxOps=d, MaxNodes=d + 3, MaxLeaves=3),
+        'polycount': dict(Ops='{"PolyDegree","PolyNCoeffs","Take","Add","Multiply"}', LeafSet='{16, 22, 39, 56}', MaxOps=3, MaxNodes=6, MaxLeaves=3),
+        'search': dict(Ops='{"SearchSorted","ArgSort","UniqueMask","UniqueInverse","SizesToOffsets","CompressIndices","Take","InsertAxis"}', LeafSet='{4, 15, 24, 27, 39}' if quick else '{4, 5, 15, 21, 24, 27, 37, 39}', MaxOps=d, MaxNodes=d + 3, MaxLeaves=3),
+        'dyn': dict(Ops='{"RangeN","InsertAxisN","LoopConcat","LoopSum","Take","Inflate","IntToFloat"}', LeafSet='{4, 22, 23, 39}' if quick else '{1, 4, 8, 22, 23, 39}', MaxOps=4, MaxNodes=7, MaxLeaves=3),
     }
+
+
+# families over the extended vocabulary: generated exhaustively like the others, replayed on a sample in the quick tier
+EXTENDED = ('cxparts', 'cxpow', 'cxstruct', 'cxlin', 'einsum', 'poly', 'polycount', 'search', 'dyn')
 
 
 def _steps_hook():
@@ -216,6 +231,7 @@ def run(rep):
     def lap(name):
         rep.notes.append('{}: {:.1f}s'.format(name, time.time() - t0))
     rng = random.Random(rep.seed)
+    rngx = random.Random(rep.seed + 1717)     # own stream for the extended vocabulary: the base sample does not depend on it
     quick = rep.tier == 'quick'
     fams = families(quick)
     names = list(fams)
@@ -223,18 +239,25 @@ def run(rep):
     sel = []
     for n, fp in zip(names, per):
         rep.constants['family:' + n] = len(fp)
-        sel += [q for q in fp if not dag.unstable(q)] if quick else exprs.select(fp, 8000, rng)
+        if quick and n in EXTENDED:
+            sel += exprs.select(fp, 110, rngx)
+        else:
+            sel += [q for q in fp if not dag.unstable(q)] if quick else exprs.select(fp, 8000, rng)
     nexh = len(sel)
     # simulate: full vocabulary, deeper, with sharing
     sims = exprs.generate(rep, 'c01-sim', MaxNodes=12, MaxOps=7, MaxLeaves=5, EmitMin=3, simulate=200 if quick else 4000, depth=13, seed=rep.seed + 1)
+    # the same over the extended vocabulary (complex dtype, ...); kept separate so that the base sample is unchanged
+    simx = exprs.generate(rep, 'c01-simx', MaxNodes=11, MaxOps=6, MaxLeaves=5, EmitMin=3, Ops='FullOps', LeafSet='FullLeaves', simulate=100 if quick else 3000, depth=12, seed=rep.seed + 2)
+    simx = [p for p in simx if any(mark(p) for mark in exprs.EXT_MARK.values())]
     lap('generated')
     sel += exprs.select(sims, 300 if quick else 6000, rng, need_arg=True)
+    sel += exprs.select(simx, 120 if quick else 3000, rngx, need_arg=True)
     # witnesses of recorded findings are always replayed (deterministic KNOWN-FINDING lines; a fixed one must pass)
     from ..report import load_known
     for kf in load_known():
         if kf.get('property') == 'C01' and kf.get('program'):
             sel.append([dict(op=n[0], d=n[1], p=n[2], sh=n[3], dt=n[4], ix=0, cl=True) for n in kf['program']])
-    rep.constants['ExprBuilder'] = dict(exhaustive_family_programs=nexh, simulate_programs=len(sims), selected=len(sel))
+    rep.constants['ExprBuilder'] = dict(exhaustive_family_programs=nexh, simulate_programs=len(sims), simulate_extended_programs=len(simx), selected=len(sel))
     jobs = [(p, [dict(env=env, node=len(p)) for env in dag.ENVS], []) for p in sel]
     results, stats = dag.evaluate(jobs, tag='c01-eval')
     for st in stats:
@@ -313,6 +336,6 @@ def run(rep):
         rep.sample([[n['op'], n['d'], n['p'], n['sh'], n['dt']] for n in p])
     rep.rule = ('programs = complete states of the ExprBuilder TLA+ machine (distinct canonical node lists); non-trivial = the real '
                 'simplifier performed at least one rewrite step on it')
-    rep.assumptions += ['ArraySem.tla is the reference semantics (transcendental functions, Eig, complex dtype are outside the vocabulary)',
+    rep.assumptions += ['ArraySem.tla is the reference semantics (transcendental functions, Eig are outside the vocabulary; complex Power only with integer-valued exponents, complex Absolute only where exact)',
                         'inputs are small integers so that float arithmetic is exact up to rtol 1e-9',
                         'model-undefined values (division by zero, roots of non-squares, magnitude cap) are skipped, never judged']
